@@ -267,12 +267,16 @@ func (g *G) Merge(d int) X {
 			act.Set("ActionType", "INSERT")
 			toks = cat(toks, kw("INSERT"))
 			nc := g.R.Intn(3)
+			defaultValues := g.R.Intn(5) == 0
+			if defaultValues {
+				nc = 0
+			}
 			if nc > 0 {
 				cts, ctoks := g.strList(g.someCols(nc))
 				act.Set("Columns", cts)
 				toks = cat(toks, ctoks)
 			}
-			if g.R.Intn(5) == 0 {
+			if defaultValues {
 				toks = cat(toks, kw("DEFAULT VALUES"))
 				act.Set("DefaultValues", true)
 			} else {
